@@ -16,7 +16,7 @@ LEVEL = "exploration"
 RULE = ("Sequential cases: a TextFileStorage (optionally pre-sized index) driven by a history of stores (ids with gaps, reversed, "
         "duplicates), reads (present, absent, beyond the index), len, is_contiguous, list(storage), close/reopen and flush; either the "
         "creating process is the only writer, or 1..3 forked writer processes (each with its own file) execute the stores one command "
-        "at a time while the parent reads. Oracle: reference dict id->text (read returns the text or IndexError; second store raises "
+        "at a time while the parent reads (in half of those cases as a reader_only storage; store-store-read-reopen-read segments spliced in). Oracle: reference dict id->text (read returns the text or IndexError; second store raises "
         "ValueError and changes nothing; len == number of ids; is_contiguous <=> ids == 0..len-1; iteration == texts in id order "
         "skipping gaps; after flush no file is left, len == 0 and the storage accepts new stores). Concurrent cases (scheduler): see "
         "c14_sched. Non-trivial: a history with a gap at the time of an iteration/is_contiguous, or a pre-sized index, or a flush "
